@@ -179,12 +179,14 @@ PROPS['C10'] = dict(
             D('RouterWatcher', 'MCRouterWatcher_mut_unbuffered.cfg', expect='fail', violates='SelfClose'),
             D('RouterWatcher', 'MCRouterWatcher_mut_signalfirst.cfg', expect='fail', violates='NoEarlyClose')],
     traces={'RouterLifecycleTrace': dict(module='RouterLifecycleTrace', cfg='RouterLifecycleTrace.cfg')},
+    # every word of user actions admitted by RouterWatcher.tla, enumerated by TLC, becomes a program of the driver
+    generators=[dict(cmd='gen-watcher-programs', file='watcher-programs.json', env='VERIF_C10_PROGRAMS')],
     rule='runs = lifecycle programs over {AddHandler, Run, wait Running, RunHandlers (sequential and 3-6 concurrent calls with slow Subscribe), wait Started, Stop, wait Stopped, '
          'probe message, cancel Run context, Close, second Run (also while the first is held inside Subscribe), Stop/Stopped called in the window right after Started() closes (gate), '
          'Run without handlers (first handler added later, possibly after the Run context was cancelled), RunHandlers with a context of its own} '
          'with 1..5 handlers, targeted programs plus random ones; non-trivial = at least two handlers',
     exhaustive=False,
-    min_stats={'programs': 25},
+    min_stats={'programs': 25, 'tlc_generated_programs': 30},
     assumptions=['a probe message counts as not handled after 700 ms', 'Subscribe calls are counted by the scripted subscribers'],
 )
 
